@@ -144,6 +144,7 @@ type Engine struct {
 	strIntern map[string]int
 	typeIDs map[string]int
 	Params map[string]int
+	uniq    map[string]int
 	NoSlice bool
 	QSites  map[string]int
 	deadline time.Time
